@@ -31,6 +31,9 @@
 (***************************************************************************)
 EXTENDS Prims, CEKNames
 
+\* R7RS 4.3.2 (pattern matching and template instantiation), used for user-defined macros
+SR == INSTANCE SyntaxRules
+
 SymD(i) == [t |-> "sym", v |-> i]
 Lit(v) == [t |-> "lit", v |-> v]                       \* expression evaluating to the value v
 App(f, args) == [t |-> "list", v |-> <<f>> \o args, tl |-> NilV]
@@ -273,7 +276,13 @@ EvForm(m, e, r) ==
          IF n # 1 THEN Syntax(m)
          ELSE Ev(WithRule(m, "delay"),
                  App(SymD(K_delay_force), <<App(Lit(PrimV("make-promise")), <<args[1]>>)>>), r)
-    [] kw = K_define_syntax -> OutOfModel(m, "define-syntax")
+    [] kw = K_define_syntax ->
+         \* (define-syntax name (syntax-rules ...)) at top level binds name to the transformer.  The machine expands a
+         \* use when it evaluates it; the generators define every macro once, as a whole top-level form, before its
+         \* first use, and write templates that need no renaming (hygiene is out of the model).
+         IF n # 2 \/ args[1].t # "sym" THEN Syntax(m)
+         ELSE IF args[1].v <= NKeywords \/ Len(r) # 0 THEN OutOfModel(m, "define-syntax of a keyword or not at top level")
+         ELSE Rt([WithRule(m, "define-syntax") EXCEPT !.gl[args[1].v] = [t |-> "macro", def |-> e]], VoidV)
     [] OTHER -> Syntax(m)     \* else, =>, unquote, ... in operator position
 
 EvStep(m) ==
@@ -297,6 +306,12 @@ EvStep(m) ==
     [] e.t = "list" ->
          IF e.tl.t # "nil" THEN Syntax(m)
          ELSE IF IsForm(e.v[1], r) THEN EvForm(m, e, r)
+         ELSE IF e.v[1].t = "sym" /\ ~Bound(r, e.v[1].v) /\ m.gl[e.v[1].v].t = "macro" THEN
+              \* macro use: first matching rule, template instantiation
+              LET x == SR!Expand(m.gl[e.v[1].v].def, e) IN
+              CASE x.k = "exp" -> Ev(WithRule(m, "macro-use"), x.d, r)
+                [] x.k = "nomatch" -> Syntax(WithRule(m, "macro-no-match"))
+                [] OTHER -> OutOfModel(m, "macro use the report does not define")
          ELSE \* application: operands left to right, then the operator
               IF Len(e.v) = 1
               THEN EvK(WithRule(m, "app"), e.v[1], r, [f |-> "op", args |-> <<>>])
